@@ -2,7 +2,7 @@
 import io, contextlib, warnings
 from hypothesis import strategies as st
 
-from amaranth.hdl import Module, ClockDomain, Signal, Shape, Print, Assert, Assume, Format, Const
+from amaranth.hdl import Module, ClockDomain, Signal, Shape, Print, Assert, Assume, Format, Const, EnableInserter, Value
 from amaranth.sim import Simulator
 
 from vlib.runner import Part, Mismatch, HarnessError
@@ -15,8 +15,8 @@ PID = "C20"
 LEVEL = "exploration"
 RULE = ("format: Hypothesis draws specs from the accepted grammar [[fill]align][sign][#][0][width][_][type] (fill "
         "incl. non-ASCII and '{'-free punctuation, align < > =, sign + - space, type b o d x X c s or none) and values of "
-        "width 0..24 signed/unsigned (for c: valid code points; for s: NUL-free UTF-8 text, least significant byte "
-        "first, NUL padded), several arguments per Format, literal text with doubled braces, Print with sep/end and "
+        "width 0..24 signed/unsigned (for c: valid code points; for s: UTF-8 text, least significant byte "
+        "first, NUL bytes as padding after, before or between the characters), several arguments per Format, literal text with doubled braces, Print with sep/end and "
         "bare values/strings; the captured stdout of the simulation at the clock edge, and the text of the "
         "AssertionError raised through Assert/Assume with a Format or plain-string message, must equal Python's "
         "str.format / print result for the value interpreted in its own shape. reject: specs from the rejected grammar "
@@ -24,13 +24,17 @@ RULE = ("format: Hypothesis draws specs from the accepted grammar [[fill]align][
         "on signed) must raise at construction. timing: Print / Assert / Assume statements are inserted at random "
         "places of generated control-flow programs (If/Switch/FSM nests) in pos/neg-edge domains with sync/async "
         "reset; the reference statement interpreter says at which edges each is active; output must appear at exactly "
-        "those edges (nothing at other events: input changes, inactive clock edge, reset changes), and the simulation "
+        "those edges (nothing at other events: input changes, the inactive clock edge with further events in the "
+        "half-cycle after it, reset changes in either half-cycle); a checker submodule holding only Print / Assert "
+        "statements, plain or under EnableInserter with a generated enable expression, must be active exactly at the "
+        "edges where its enable is non-zero; the simulation "
         "must stop with AssertionError exactly at the first edge with an active Assert/Assume whose multi-bit condition "
         "is zero. Non-trivial: >=2 spec options combined or a negative / over-wide value; timing cases with an "
         "inactive edge before an active one. Distinct by canonical hash of the case.")
 ASSUMPTIONS = [
     "Oracle is CPython's own str.format / format() applied to the exact integer (chr / decoded text for c / s).",
-    "s values are valid UTF-8 without embedded NUL bytes; c values are below 0x110000.",
+    "s values are valid UTF-8 with zero bytes as padding at any position (the simulator's documented reading: a "
+    "string of unknown width whose zero bytes are not characters); c values are below 0x110000.",
     "Output at the very edge where an assertion fires is not compared (which statements run before the stop is unspecified).",
 ]
 QUICK_SHARDS = 4
@@ -77,7 +81,14 @@ def draw_arg(draw):
         nbytes = draw(INT(1, 4))
         text = draw(st.text(st.characters(min_codepoint=1, max_codepoint=0x2FFF, blacklist_categories=("Cs",)),
                             max_size=nbytes).filter(lambda t: len(t.encode()) <= nbytes))
-        raw = int.from_bytes(text.encode(), "little")
+        # zero bytes are padding wherever they are (value_to_string: "string of unknown width"): place the
+        # characters at generated positions of the nbytes-wide value, not only at the least significant end
+        chars = [ch.encode() for ch in text]
+        pad = nbytes - sum(len(c) for c in chars)
+        if pad and draw(INT(0, 2)) == 0:
+            for _ in range(pad):
+                chars.insert(draw(INT(0, len(chars))), b"\0")
+        raw = int.from_bytes(b"".join(chars), "little")
         return [8 * nbytes, False], raw, typ
     s = draw(BOOL)
     w = draw(INT(1, 24)) if s else draw(st.one_of(INT(0, 3), INT(0, 24)))
@@ -221,6 +232,10 @@ def format_body(ctx, case):
                            values=[a["values"][0] for a in args], shapes=[a["shape"] for a in args],
                            expected=exp, actual=got)
     keys = ["fmt:" + mode] + ["fmt:type-" + (a["type"] or "none") for a in args]
+    for a in args:
+        if a["type"] == "s":
+            raw = a["values"][0].to_bytes(a["shape"][0] // 8, "little")
+            if b"\0" in raw.rstrip(b"\0"): keys.append("fmt:s-zero-byte-below-a-character")
     if any(a["shape"][1] and min(a["values"]) < 0 for a in args): keys.append("fmt:negative")
     if any(a["shape"][0] == 0 for a in args): keys.append("fmt:width0")
     if any("=" in a["spec"] for a in args): keys.append("fmt:align=")
@@ -283,7 +298,7 @@ def bodies_of(body, out):
 
 @st.composite
 def timing_cases(draw, depth, nev):
-    dcfg = {"sync": {"clk_edge": PICK(draw, ["pos", "pos", "neg"]), "async_reset": draw(INT(0, 2)) == 0}}
+    dcfg = {"sync": {"clk_edge": PICK(draw, ["pos", "pos", "neg"]), "async_reset": draw(BOOL)}}
     if draw(INT(0, 5)) == 0:
         dcfg["sync"]["reset_less"] = True
         dcfg["sync"]["async_reset"] = False
@@ -310,7 +325,23 @@ def timing_cases(draw, depth, nev):
             st_ = ["print", "sync", j, e]
         b.insert(draw(INT(0, len(b))), st_)
     evs = draw(stimulus(prog, nev, domains=("sync",), resets="reset_less" not in dcfg["sync"]))
-    return {"prog": prog, "events": evs, "domains": dcfg}
+    # "fall": the inactive clock edge on its own, so that input / reset changes also land in the other half-cycle
+    for _ in range(draw(INT(0, 3))):
+        evs.insert(draw(INT(0, len(evs))), ["fall"])
+    for i in range(len(evs) - 1, -1, -1):
+        if evs[i][0] == "rst" and draw(INT(0, 2)) == 0:
+            evs.insert(i, ["fall"])
+    # a checker submodule whose clocked domain holds nothing but Print / Assert statements, optionally under
+    # EnableInserter (then it is active only at edges where the enable expression is non-zero)
+    mon = None
+    if draw(INT(0, 2)) == 0:
+        mon = {"en": eg.limit(draw, eg.expr(draw, draw(INT(0, 1))), 24) if draw(INT(0, 3)) else None,
+               "prints": [eg.limit(draw, eg.expr(draw, draw(INT(0, 2))), 24) for _ in range(draw(INT(0, 2)))],
+               "cond": None}
+        if not mon["prints"] or draw(INT(0, 3)) == 0:
+            e = eg.limit(draw, eg.expr(draw, draw(INT(0, 2))), 24)
+            mon["cond"] = ["b", "|", e, ["const", draw(INT(0, 3)), 2, False]]
+    return {"prog": prog, "events": evs, "domains": dcfg, "monitor": mon}
 
 
 def timing_body(ctx, case):
@@ -327,13 +358,23 @@ def timing_body(ctx, case):
         warnings.simplefilter("ignore")
         b = build_program(prog, domains=dcfg, extra=extra)
         it = R.Interp(prog)
+        mon = case.get("monitor")
+        if mon:
+            mm = Module()
+            for j, e in enumerate(mon["prints"]):
+                mm.d.sync += Print(Format("M{}:{}", j, B.expr(e, b.sigs)))
+            if mon["cond"] is not None:
+                mm.d.sync += Assert(B.expr(mon["cond"], b.sigs), "MA")
+            b.m.submodules.mon = (EnableInserter({"sync": Value.cast(B.expr(mon["en"], b.sigs)).bool()})(mm)
+                                  if mon["en"] is not None else mm)
         sim = Simulator(b.m)
     cd = b.cds["sync"]
     inputs = {i: 0 for i in prog["inputs"]}
     vals, fstate = it.initial(inputs)
     vals = it.settle(vals, fstate)
     active = 1 if cd.clk_edge == "pos" else 0
-    stats = dict(prints=0, silent_edges=0, inactive_before_active=False, stopped=False, reset_rise=0, other_events=0)
+    stats = dict(prints=0, silent_edges=0, inactive_before_active=False, stopped=False, reset_rise=0, other_events=0,
+                 monitor_on=0, monitor_off=0, low_phase_reset_rise=0)
     fail = []
 
     def run_edge(vals, fstate, rst):
@@ -350,11 +391,24 @@ def timing_body(ctx, case):
                     kind = "Assertion" if st_[0] == "assert" else "Assumption"
                     errs.append(f"{kind} violated: A{st_[2]}:{R.evaluate(st_[4], env, v)}")
         nv, nf = it.edge(vals, fstate, "sync", rst=rst, hooks=hook)
+        if mon and (mon["en"] is None or R.evaluate(mon["en"], env, vals) != 0):
+            stats["monitor_on"] += 1
+            for j, e in enumerate(mon["prints"]):
+                out.append(f"M{j}:{R.evaluate(e, env, vals)}\n")
+            if mon["cond"] is not None and R.evaluate(mon["cond"], env, vals) == 0:
+                errs.append("Assertion violated: MA")
+        elif mon:
+            stats["monitor_off"] += 1
         return "".join(out), errs, nv, nf
+
+    def split(text):
+        lines = text.splitlines()
+        return [l for l in lines if l[:1] != "M"], [l for l in lines if l[:1] == "M"]
 
     async def tb(c):
         nonlocal vals, fstate
         rst = 0
+        level = 0                               # current clock level
         seen_silent = False
         for step, ev in enumerate(case["events"]):
             buf = io.StringIO()
@@ -376,13 +430,17 @@ def timing_body(ctx, case):
                         if cd.async_reset and rst == 1 and old == 0:
                             vals, fstate = it.async_reset(vals, fstate, "sync")
                             stats["reset_rise"] += 1
+                            if level != active: stats["low_phase_reset_rise"] += 1
+                        stats["other_events"] += 1
+                    elif ev[0] == "fall":
+                        c.set(cd.clk, 1 - active); level = 1 - active
                         stats["other_events"] += 1
                     else:
                         c.set(cd.clk, 1 - active)          # inactive edge (or no change): nothing may happen
                         if buf.getvalue():
                             fail.append(Mismatch("output-at-inactive-edge", step=step, output=buf.getvalue())); return
                         exp_text, exp_errs, nv, nf = run_edge(vals, fstate, bool(rst) and cd.rst is not None)
-                        c.set(cd.clk, active)
+                        c.set(cd.clk, active); level = active
                         vals, fstate = nv, nf
                 except AssertionError as e:
                     err = str(e)
@@ -401,7 +459,7 @@ def timing_body(ctx, case):
                 return
             if err is not None:
                 fail.append(Mismatch("spurious-assertion", step=step, error=err)); return
-            if got != exp_text:
+            if split(got) != split(exp_text):
                 fail.append(Mismatch("print-timing", step=step, event=ev, expected=exp_text, actual=got)); return
             if exp_text:
                 stats["prints"] += 1
@@ -426,6 +484,11 @@ def timing_body(ctx, case):
     if stats["inactive_before_active"]: keys.append("tim:inactive-before-active")
     if stats["stopped"]: keys.append("tim:assert-stopped")
     if stats["reset_rise"] and cd.async_reset: keys.append("tim:async-reset-rise")
+    if stats["low_phase_reset_rise"]: keys.append("tim:async-reset-rise-after-inactive-edge")
+    if mon:
+        keys.append("tim:monitor-enable-inserter" if mon["en"] is not None else "tim:monitor-plain")
+        if mon["en"] is not None and stats["monitor_on"]: keys.append("tim:monitor-enabled-edge")
+        if mon["en"] is not None and stats["monitor_off"]: keys.append("tim:monitor-disabled-edge")
     ctx.note(case, stats["inactive_before_active"] or stats["stopped"], *keys, evals=len(case["events"]))
 
 
@@ -442,4 +505,6 @@ REQUIRED = ["fmt:print-format", "fmt:print-args", "fmt:assert-format", "fmt:assu
             "fmt:type-none", "fmt:type-d", "fmt:type-b", "fmt:type-o", "fmt:type-x", "fmt:type-X", "fmt:type-c", "fmt:type-s",
             "fmt:negative", "fmt:width0", "fmt:align=", "fmt:fill", "fmt:literal-braces", "fmt:str-message-with-braces",
             "reject:raised", "tim:edge-pos", "tim:edge-neg", "tim:async-reset", "tim:printed", "tim:silent-edge",
-            "tim:inactive-before-active", "tim:assert-stopped", "tim:async-reset-rise"]
+            "tim:inactive-before-active", "tim:assert-stopped", "tim:async-reset-rise",
+            "tim:async-reset-rise-after-inactive-edge", "tim:monitor-enable-inserter", "tim:monitor-plain",
+            "tim:monitor-enabled-edge", "tim:monitor-disabled-edge", "fmt:s-zero-byte-below-a-character"]
